@@ -18,17 +18,18 @@ SPEC = dict(
     engines=[dict(name="totality", shards=T(16, 16), timeout=T(1200, 7200)),
              dict(name="totality-cli", shards=T(16, 16), timeout=T(1200, 7200), needs_wtf=True),
              dict(name="gofuzz-FuzzLoadSearch", kind="gofuzz", target="FuzzLoadSearch", fuzztime=T(0, "90s"))],
-    rule="case = one generated file (then 8-10 (query, options) pairs x 10 entry points on the loaded database); non-trivial = a well-formed list whose "
+    rule="Per loaded file two more requests from a stream of their own: plain words of the file, limit 1-3, typo tolerance on, with boosts of 0 / 1e-9 / 0.001 / 0.3 / 0.5 / -2 on the request's own words, through all ten entry points. One file in 64 is a block list of 2600-4200 entries (300-700 KiB) whose later entries use YAML aliases of lists anchored in the first two entries; it must load with exactly the entries written. "
+         "case = one generated file (then 8-10 (query, options) pairs x 10 entry points on the loaded database); non-trivial = a well-formed list whose "
          "expected entries are known to the generator and were compared; distinct by file content. "
          "Two shards (half of them in the thorough tier) also load a well-formed list whose file is 17 to 130 MiB (a dozen entries with MiB-long descriptions), as main database and as "
          "notebook; a seventh of the CLI runs start in a working directory that has been removed. "
          "Every byte value 0x00-0xFF as a run of 1 .. 65537 bytes (lengths around 1000, 1024, 4096), alone and glued to a word, goes through every search entry point; databases that have more "
          "entries than the embedding file beside them has rows are searched for every entry.",
-    floors=T({"queries-that-are-a-run-of-one-byte-value": 9000, "searches-on-a-database-longer-than-its-embedding-file": 600, "files-of-tens-of-MiB": 2, "cli-runs-in-a-removed-working-directory": 60, "files-wellformed-block": 150, "files-wellformed-flow": 150, "files-wellformed-utf16": 100, "files-wrong-shape": 150, "files-damaged": 150, "files-mutated": 150,
+    floors=T({"requests-with-damping-boosts-on-their-own-words": 2000, "large-files-with-anchors-and-aliases": 25, "queries-that-are-a-run-of-one-byte-value": 9000, "searches-on-a-database-longer-than-its-embedding-file": 600, "files-of-tens-of-MiB": 2, "cli-runs-in-a-removed-working-directory": 60, "files-wellformed-block": 150, "files-wellformed-flow": 150, "files-wellformed-utf16": 100, "files-wrong-shape": 150, "files-damaged": 150, "files-mutated": 150,
               "files-random-bytes": 150, "files-deep": 30, "load-ok": 1000, "load-error": 500, "calls-SearchUniversal": 8000,
               "calls-RecoverFromSearchFailure": 8000, "distinct_nontrivial": 500,
               "cli-runs-table": 200, "cli-runs-with-results": 150, "cli-runs-with-a-backup-file-only": 30, "calls-LoadDatabaseWithFallback": 800, "files-wellformed-sized": 150, "sized-over-4096": 20, "sized-procs-64": 5, "sized-procs-1": 5, "dictionary-queries": 20000},
-             {"queries-that-are-a-run-of-one-byte-value": 9000, "searches-on-a-database-longer-than-its-embedding-file": 4000, "files-of-tens-of-MiB": 8, "files-over-64MiB": 3, "cli-runs-in-a-removed-working-directory": 1500, "files-wellformed-block": 1500, "files-wellformed-flow": 1500, "files-wellformed-utf16": 1000, "files-wrong-shape": 1500, "files-damaged": 1500, "files-mutated": 1500,
+             {"requests-with-damping-boosts-on-their-own-words": 60000, "large-files-with-anchors-and-aliases": 700, "queries-that-are-a-run-of-one-byte-value": 9000, "searches-on-a-database-longer-than-its-embedding-file": 4000, "files-of-tens-of-MiB": 8, "files-over-64MiB": 3, "cli-runs-in-a-removed-working-directory": 1500, "files-wellformed-block": 1500, "files-wellformed-flow": 1500, "files-wellformed-utf16": 1000, "files-wrong-shape": 1500, "files-damaged": 1500, "files-mutated": 1500,
               "files-random-bytes": 1500, "files-deep": 300, "load-ok": 10000, "load-error": 5000, "calls-SearchUniversal": 80000,
               "calls-RecoverFromSearchFailure": 80000, "distinct_nontrivial": 5000,
               "cli-runs-table": 5000, "cli-runs-with-results": 5000, "cli-runs-with-a-backup-file-only": 900, "calls-LoadDatabaseWithFallback": 25000, "files-wellformed-sized": 4000, "sized-over-4096": 500, "sized-procs-64": 150, "sized-procs-1": 150, "dictionary-queries": 60000}),
